@@ -341,26 +341,26 @@ def bruteSides (reac prod : List String) (flags : List Bool) (intersect : List S
   (sortedSet r, sortedSet p)
 
 /-- `balance_stoichiometry(..., allow_duplicates=allowDup)`; `core reac prod` is the duplicate-free call. -/
-def dupSearch {α : Type} (mode : Mode) (core : List String → List String → Except Err α) :
+def dupSearch {α : Type} (isNone : Bool) (core : List String → List String → Except Err α) :
     Nat → Bool → List String → List String → Except Err α
   | 0, _, _, _ => .error .fuel
   | fuel + 1, allowDup, reac, prod =>
     let intersect := sortedSet (reac.filter (prod.contains ·))
     if intersect.isEmpty then core reac prod else
     if !allowDup then .error (.valueError "both-sides") else
-    if mode != .smallest then .error .notImplemented else
+    if !isNone then .error .notImplemented else      -- `if underdetermined is not None` on the RAW argument (1 is not None)
     if (sortedSet reac) == (sortedSet prod) then .error (.valueError "identical") else
     match firstOk (intersect.map fun d =>
-        dupSearch mode core fuel true (reac.filter (· != d)) (prod.filter (· != d))) with
+        dupSearch isNone core fuel true (reac.filter (· != d)) (prod.filter (· != d))) with
     | some r => .ok r
     | none =>
       firstOkValueError intersect ((boolProductPy intersect.length).map fun flags =>
         let rp := bruteSides reac prod flags intersect
-        dupSearch mode core fuel false rp.1 rp.2)
+        dupSearch isNone core fuel false rp.1 rp.2)
 
 /-- the whole function -/
 def balance (mode : Mode) (allowDup : Bool) (solver : Mat → Candidate) (p : Problem) : Except Err Result :=
-  dupSearch mode (fun r pr => balanceCore mode solver { p with reactants := r, products := pr })
+  dupSearch (mode == .smallest) (fun r pr => balanceCore mode solver { p with reactants := r, products := pr })
     (p.reactants.length + 1) allowDup p.reactants p.products
 
 /-- the duplicate-free call from the arguments AS PASSED (`substances` a dict / None / a key string, sides
@@ -371,11 +371,23 @@ def balanceVia (mode : Mode) (solver : Mat → Candidate) (table : List (String 
   | .error e => .error e
   | .ok (p, _) => balanceCore mode solver p
 
+/-- the `underdetermined` argument as passed: `1` is a deprecated spelling of `None`, rewritten to `None` only AFTER the
+    duplicate handling (whose test is `underdetermined is not None`), so `1` with duplicates is a NotImplementedError -/
+inductive RawMode
+  | true | false | none | one
+  deriving DecidableEq, Repr
+
+def RawMode.mode : RawMode → Mode
+  | .true => .symbolic
+  | .false => .strict
+  | .none => .smallest
+  | .one => .smallest
+
 /-- `balance_stoichiometry(reactants, products, substances, substance_factory, underdetermined, allow_duplicates)`
     for list-valued sides: the duplicate search around `balanceVia` (every sub-call resolves `substances` itself) -/
-def balanceCall (mode : Mode) (allowDup : Bool) (solver : Mat → Candidate) (table : List (String × Comp))
+def balanceCall (raw : RawMode) (allowDup : Bool) (solver : Mat → Candidate) (table : List (String × Comp))
     (arg : SubstArg) (reac prod : List String) : Except Err Result :=
-  dupSearch mode (fun r p => balanceVia mode solver table arg false false r p) (reac.length + 1) allowDup reac prod
+  dupSearch (raw == .none) (fun r p => balanceVia raw.mode solver table arg false false r p) (reac.length + 1) allowDup reac prod
 
 /-! ### certificate checker for the "smallest integers" mode -/
 
